@@ -375,7 +375,19 @@ fn payload_oracle(
     b: LocalTypeId,
     both_ways: bool,
     ctx: &str,
+    extra: &[V],
 ) {
+    for v in extra {
+        let Ok(p) = scrypto_encode(&v_to::<FScrypto>(v)) else { continue };
+        let vb = validates(&p, base, a);
+        let vc = validates(&p, cmp, b);
+        if vb { report.count("oracle_payload_valid_under_base"); }
+        report.count("oracle_explicit_payloads");
+        if (vb && !vc) || (both_ways && vc && !vb) {
+            report.oracle_failure(idx, "", &format!("comparison reported valid ({}) but a boundary payload is accepted under only one of the two schemas (base: {}, compared: {})", ctx, vb, vc),
+                json!({"base": format!("{:?}", base), "compared": format!("{:?}", cmp), "base_root": format!("{:?}", a), "compared_root": format!("{:?}", b), "payload": hex(&p)}));
+        }
+    }
     for round in 0..6 {
         let from_base = !both_ways || round % 2 == 0;
         let (gs, gt) = if from_base { (base, a) } else { (cmp, b) };
@@ -408,6 +420,494 @@ fn coq_roots(r: &IndexMap<String, LocalTypeId>) -> String {
     coq_list(r.iter().map(|(n, t)| format!("({}, {})", coq_bytes(n.as_bytes()), coq_tid(t))))
 }
 
+enum Roots {
+    Fixed(LocalTypeId, LocalTypeId),
+    Named(IndexMap<String, LocalTypeId>, IndexMap<String, LocalTypeId>),
+}
+
+/// runs the real comparison on one (settings, base, compared, roots), the payload oracle if the
+/// verdict is Valid, and emits the Coq case; returns "valid" | "invalid" | "panic"
+fn run_pair(
+    report: &mut Report,
+    cw: &mut CaseWriter,
+    rng: &mut Rng,
+    idx: usize,
+    st: St,
+    base: &ScryptoSchema,
+    cmp: &ScryptoSchema,
+    roots: &Roots,
+    extra: &[V],
+) -> &'static str {
+    let settings = st.real();
+    let base_valid = base.validate().is_ok();
+    let cmp_valid = cmp.validate().is_ok();
+    if base_valid && cmp_valid { report.count("both_schemas_valid"); }
+    let (r, r2): (Result<(bool, Option<String>), String>, Box<dyn Fn() -> Result<bool, String>>) = match roots {
+        Roots::Fixed(a, b) => {
+            let bs = SingleTypeSchema::<ScryptoCustomSchema>::new(VersionedSchema::from(base.clone()), *a);
+            let cs = SingleTypeSchema::<ScryptoCustomSchema>::new(VersionedSchema::from(cmp.clone()), *b);
+            let r = catch({
+                let (bs, cs) = (bs.clone(), cs.clone());
+                move || {
+                    let res = compare_single_type_schemas(&settings, &bs, &cs);
+                    (res.is_valid(), res.error_message("base", "compared"))
+                }
+            });
+            (r, Box::new(move || {
+                let (bs, cs) = (bs.clone(), cs.clone());
+                catch(move || compare_single_type_schemas(&settings, &bs, &cs).is_valid())
+            }))
+        }
+        Roots::Named(br, cr) => {
+            let bs = TypeCollectionSchema::<ScryptoCustomSchema>::new(VersionedSchema::from(base.clone()), br.clone());
+            let cs = TypeCollectionSchema::<ScryptoCustomSchema>::new(VersionedSchema::from(cmp.clone()), cr.clone());
+            let r = catch({
+                let (bs, cs) = (bs.clone(), cs.clone());
+                move || {
+                    let res = compare_type_collection_schemas(&settings, &bs, &cs);
+                    (res.is_valid(), res.error_message("base", "compared"))
+                }
+            });
+            (r, Box::new(move || {
+                let (bs, cs) = (bs.clone(), cs.clone());
+                catch(move || compare_type_collection_schemas(&settings, &bs, &cs).is_valid())
+            }))
+        }
+    };
+    let (verdict, nerr, valid) = match &r {
+        Ok((v, m)) => (format!("(Some {})", coq_bool(*v)), if *v { Some(0) } else { parse_count(m) }, *v),
+        // is_valid alone (error_message may be what panicked)
+        Err(_) => match r2() {
+            Ok(v) => (format!("(Some {})", coq_bool(v)), None, v),
+            Err(_) => ("None".to_string(), None, false),
+        },
+    };
+    let label = if verdict == "None" { "panic" } else if valid { "valid" } else { "invalid" };
+    report.count(&format!("verdict_{}", label));
+    if verdict == "None" && base_valid && cmp_valid { report.count("panic_on_valid_schemas"); }
+    let ctx = format!("{:?}", st);
+    match roots {
+        Roots::Fixed(a, b) => {
+            if valid {
+                payload_oracle(rng, report, idx, base, cmp, *a, *b, st.equality_like(), &ctx, extra);
+            }
+            report.case(&format!("F{:?}{:?}{:?}{:?}{:?}{}", st, base, cmp, a, b, verdict), true);
+            cw.push(format!(
+                "(CFixed {} {} {} {} {} {} {})",
+                st.coq(), coq_schema(base), coq_schema(cmp), coq_tid(a), coq_tid(b), verdict,
+                coq_option(nerr.map(|x| format!("{}", x)))
+            ));
+        }
+        Roots::Named(br, cr) => {
+            report.count("named_roots_cases");
+            if valid {
+                for (name, a) in br.iter() {
+                    if let Some(b) = cr.get(name) {
+                        payload_oracle(rng, report, idx, base, cmp, *a, *b, st.equality_like(), &ctx, extra);
+                    }
+                }
+            }
+            report.case(&format!("N{:?}{:?}{:?}{:?}{:?}{}", st, base, cmp, br, cr, verdict), true);
+            cw.push(format!(
+                "(CNamed {} {} {} {} {} {} {})",
+                st.coq(), coq_schema(base), coq_schema(cmp), coq_roots(br), coq_roots(cr), verdict,
+                coq_option(nerr.map(|x| format!("{}", x)))
+            ));
+        }
+    }
+    label
+}
+
+// ------------------------------------------------------------------------------------------------
+// deterministic boundary family (identical for every seed)
+// ------------------------------------------------------------------------------------------------
+struct BPair {
+    class: String,
+    st: St,
+    base: ScryptoSchema,
+    cmp: ScryptoSchema,
+    roots: Roots,
+    extra: Vec<V>,
+}
+fn loc(i: usize) -> LocalTypeId {
+    LocalTypeId::SchemaLocalIndex(i)
+}
+fn auto_meta(k: &SK) -> TypeMetadata {
+    match k {
+        TypeKind::Enum { variants } => TypeMetadata {
+            type_name: Some("E".into()),
+            child_names: Some(ChildNames::EnumVariants(
+                variants.keys().map(|d| (*d, TypeMetadata { type_name: Some(format!("V{}", d).into()), child_names: None })).collect(),
+            )),
+        },
+        _ => TypeMetadata::unnamed(),
+    }
+}
+/// schema with schema-valid default metadata
+fn mk(types: Vec<(SK, SV)>) -> ScryptoSchema {
+    let metas = types.iter().map(|(k, _)| auto_meta(k)).collect();
+    let (kinds, vals): (Vec<SK>, Vec<SV>) = types.into_iter().unzip();
+    ScryptoSchema { type_kinds: kinds, type_metadata: metas, type_validations: vals }
+}
+const EQ: St = St { unreach_base: false, unreach_cmp: false, more_roots: false, extension_structure: false, type_names: 0, field_names: 0, variant_names: 0, weakening: false };
+const EXT: St = St { unreach_base: false, unreach_cmp: false, more_roots: true, extension_structure: true, type_names: 0, field_names: 0, variant_names: 0, weakening: true };
+/// everything not under test allowed (names, unreachable types, extra roots)
+fn loose(ext: bool, weak: bool) -> St {
+    St { unreach_base: true, unreach_cmp: true, more_roots: true, extension_structure: ext, type_names: 2, field_names: 2, variant_names: 2, weakening: weak }
+}
+fn none() -> SV {
+    TypeValidation::None
+}
+fn tuple(f: Vec<LocalTypeId>) -> SK {
+    TypeKind::Tuple { field_types: f }
+}
+fn u8b(lo: u128, hi: u128) -> SV {
+    num_val(IK::U8, Some(Z::U(lo)), Some(Z::U(hi)))
+}
+fn u8v(x: u128) -> V {
+    V::Int(IK::U8, Z::U(x))
+}
+
+fn boundary_pairs() -> Vec<BPair> {
+    let mut out: Vec<BPair> = vec![];
+    let mut push = |class: &str, st: St, base: ScryptoSchema, cmp: ScryptoSchema, roots: Roots, extra: Vec<V>| {
+        out.push(BPair { class: class.to_string(), st, base, cmp, roots, extra });
+    };
+    let f00 = || Roots::Fixed(loc(0), loc(0));
+    let ents = rep_entity_bytes();
+
+    // A. numeric validation comparison: every integer kind, each bound at -1 / 0 / +1, None vs explicit extremes
+    for ik in IKS {
+        let (lo_t, hi_t) = (tmin(ik), tmax(ik));
+        let lo = zadd(lo_t, 3);
+        let hi = zadd(lo, 4);
+        let probes: Vec<V> = vec![zadd(lo, -1), lo, zadd(lo, 1), zadd(hi, -1), hi, zadd(hi, 1), lo_t, hi_t].into_iter().map(|z| V::Int(ik, z)).collect();
+        let mut pairs: Vec<(SV, SV)> = vec![];
+        for dmin in [-1i128, 0, 1] {
+            for dmax in [-1i128, 0, 1] {
+                pairs.push((num_val(ik, Some(lo), Some(hi)), num_val(ik, Some(zadd(lo, dmin)), Some(zadd(hi, dmax)))));
+            }
+        }
+        pairs.push((num_val(ik, None, None), num_val(ik, Some(lo_t), Some(hi_t))));
+        pairs.push((num_val(ik, Some(lo_t), Some(hi_t)), num_val(ik, None, None)));
+        pairs.push((num_val(ik, Some(lo_t), None), num_val(ik, Some(zadd(lo_t, 1)), None)));
+        pairs.push((num_val(ik, None, Some(hi_t)), num_val(ik, None, Some(zadd(hi_t, -1)))));
+        pairs.push((num_val(ik, None, Some(zadd(hi_t, -1))), num_val(ik, None, None)));
+        pairs.push((num_val(ik, Some(zadd(lo_t, 1)), None), num_val(ik, None, None)));
+        pairs.push((num_val(ik, Some(lo), Some(hi)), none()));
+        pairs.push((none(), num_val(ik, Some(lo), Some(hi))));
+        pairs.push((none(), num_val(ik, None, None)));
+        pairs.push((none(), none()));
+        for (bv, cv) in pairs {
+            for weak in [false, true] {
+                push(&format!("c_num_{:?}", ik), loose(false, weak), mk(vec![(ik_kind(ik), bv.clone())]), mk(vec![(ik_kind(ik), cv.clone())]), f00(), probes.clone());
+            }
+        }
+    }
+    // B. length validation comparison: strings, arrays, maps
+    {
+        let kinds: Vec<(&str, SK, Box<dyn Fn(LengthValidation) -> SV>, Box<dyn Fn(usize) -> V>)> = vec![
+            ("c_len_string", TypeKind::String, Box::new(TypeValidation::String), Box::new(|n| V::Str("x".repeat(n)))),
+            ("c_len_array", TypeKind::Array { element_type: wk(1) }, Box::new(TypeValidation::Array), Box::new(|n| V::Array(K::Bool, vec![V::Bool(true); n]))),
+            ("c_len_map", TypeKind::Map { key_type: wk(7), value_type: wk(1) }, Box::new(TypeValidation::Map),
+                Box::new(|n| V::Map(K::Int(IK::U8), K::Bool, (0..n).map(|i| (V::Int(IK::U8, Z::U(i as u128)), V::Bool(true))).collect()))),
+        ];
+        for (name, k, mkv, mkval) in &kinds {
+            let probes: Vec<V> = (0..=6).map(|n| mkval(n)).collect();
+            let mut pairs: Vec<(SV, SV)> = vec![];
+            for mn in [1u32, 2, 3] {
+                for mx in [3u32, 4, 5] {
+                    pairs.push((mkv(lenv(Some(2), Some(4))), mkv(lenv(Some(mn), Some(mx)))));
+                }
+            }
+            pairs.push((mkv(lenv(None, None)), mkv(lenv(Some(0), Some(u32::MAX)))));
+            pairs.push((mkv(lenv(Some(0), Some(u32::MAX))), mkv(lenv(None, None))));
+            pairs.push((mkv(lenv(Some(1), None)), mkv(lenv(None, None))));
+            pairs.push((mkv(lenv(None, Some(4))), mkv(lenv(None, Some(3)))));
+            pairs.push((mkv(lenv(Some(2), Some(4))), none()));
+            pairs.push((none(), mkv(lenv(Some(2), Some(4)))));
+            pairs.push((none(), mkv(lenv(None, None))));
+            for (bv, cv) in pairs {
+                for weak in [false, true] {
+                    push(name, loose(false, weak), mk(vec![(k.clone(), bv.clone())]), mk(vec![(k.clone(), cv.clone())]), f00(), probes.clone());
+                }
+            }
+        }
+        // validations of different constructors (only possible in ill-formed schemas): incomparable
+        let arr = TypeKind::Array { element_type: wk(1) };
+        push("c_len_array", loose(false, true), mk(vec![(arr.clone(), TypeValidation::Array(lenv(Some(1), None)))]), mk(vec![(arr.clone(), TypeValidation::Map(lenv(Some(1), None)))]), f00(), vec![]);
+        push("c_len_array", loose(false, true), mk(vec![(arr.clone(), TypeValidation::Array(lenv(Some(1), None)))]), mk(vec![(arr, TypeValidation::String(lenv(None, None)))]), f00(), vec![]);
+    }
+    // C. custom validations: all pairs
+    {
+        let refs = vec![
+            ReferenceValidation::IsGlobal, ReferenceValidation::IsGlobalPackage, ReferenceValidation::IsGlobalComponent,
+            ReferenceValidation::IsGlobalResourceManager, ReferenceValidation::IsGlobalTyped(None, "X".into()),
+            ReferenceValidation::IsInternal, ReferenceValidation::IsInternalTyped(None, "X".into()), ReferenceValidation::IsGlobalTyped(None, "Y".into()),
+        ];
+        let owns = vec![
+            OwnValidation::IsBucket, OwnValidation::IsProof, OwnValidation::IsVault, OwnValidation::IsKeyValueStore,
+            OwnValidation::IsGlobalAddressReservation, OwnValidation::IsTypedObject(None, "Z".into()), OwnValidation::IsTypedObject(None, "W".into()),
+        ];
+        let rk = TypeKind::Custom(ScryptoCustomTypeKind::Reference);
+        let ok = TypeKind::Custom(ScryptoCustomTypeKind::Own);
+        let rprobes: Vec<V> = ents.iter().map(|e| V::Custom(C::SReference(node(*e)))).collect();
+        let oprobes: Vec<V> = ents.iter().map(|e| V::Custom(C::SOwn(node(*e)))).collect();
+        let rv = |r: &ReferenceValidation| TypeValidation::Custom(ScryptoCustomTypeValidation::Reference(r.clone()));
+        let ov = |o: &OwnValidation| TypeValidation::Custom(ScryptoCustomTypeValidation::Own(o.clone()));
+        for weak in [false, true] {
+            for b in &refs {
+                for c in &refs {
+                    push("c_custom_ref", loose(false, weak), mk(vec![(rk.clone(), rv(b))]), mk(vec![(rk.clone(), rv(c))]), f00(), rprobes.clone());
+                }
+                push("c_custom_ref", loose(false, weak), mk(vec![(rk.clone(), rv(b))]), mk(vec![(rk.clone(), none())]), f00(), rprobes.clone());
+                push("c_custom_ref", loose(false, weak), mk(vec![(rk.clone(), none())]), mk(vec![(rk.clone(), rv(b))]), f00(), rprobes.clone());
+            }
+            for b in &owns {
+                for c in &owns {
+                    push("c_custom_own", loose(false, weak), mk(vec![(ok.clone(), ov(b))]), mk(vec![(ok.clone(), ov(c))]), f00(), oprobes.clone());
+                }
+                push("c_custom_own", loose(false, weak), mk(vec![(ok.clone(), ov(b))]), mk(vec![(ok.clone(), none())]), f00(), oprobes.clone());
+            }
+        }
+    }
+    // D. tuple arity
+    for n in [0usize, 1, 2] {
+        for m in [n.wrapping_sub(1), n, n + 1] {
+            if m == usize::MAX { continue; }
+            for st in [loose(false, false), loose(true, true)] {
+                push("c_tuple_arity", st, mk(vec![(tuple(vec![wk(1); n]), none())]), mk(vec![(tuple(vec![wk(1); m]), none())]), f00(),
+                    vec![V::Tuple(vec![V::Bool(true); n]), V::Tuple(vec![V::Bool(true); m])]);
+            }
+        }
+    }
+    // E. enum variant sets
+    {
+        let en = |vs: Vec<(u8, Vec<LocalTypeId>)>| -> SK { TypeKind::Enum { variants: vs.into_iter().collect() } };
+        let base = || mk(vec![(en(vec![(0, vec![]), (1, vec![wk(1)])]), none())]);
+        let cmps: Vec<SK> = vec![
+            en(vec![(0, vec![]), (1, vec![wk(1)])]),
+            en(vec![(1, vec![wk(1)]), (0, vec![])]),
+            en(vec![(0, vec![])]),
+            en(vec![(1, vec![wk(1)])]),
+            en(vec![(0, vec![]), (1, vec![wk(1)]), (2, vec![])]),
+            en(vec![(0, vec![]), (2, vec![wk(1)])]),
+            en(vec![(0, vec![]), (1, vec![wk(1), wk(1)])]),
+            en(vec![(0, vec![]), (1, vec![])]),
+            en(vec![(0, vec![]), (1, vec![wk(7)])]),
+            en(vec![(0, vec![wk(1)]), (1, vec![wk(1)])]),
+            en(vec![]),
+        ];
+        let probes = vec![V::Enum(0, vec![]), V::Enum(1, vec![V::Bool(true)]), V::Enum(2, vec![]), V::Enum(1, vec![]), V::Enum(1, vec![u8v(1)])];
+        for c in &cmps {
+            for st in [loose(false, false), loose(true, true), loose(true, false), EQ, EXT] {
+                push("c_enum", st, base(), mk(vec![(c.clone(), none())]), f00(), probes.clone());
+            }
+        }
+        for st in [loose(false, false), loose(true, true)] {
+            push("c_enum", st, mk(vec![(en(vec![]), none())]), mk(vec![(en(vec![(0, vec![])]), none())]), f00(), probes.clone());
+            push("c_enum", st, mk(vec![(en(vec![(255, vec![])]), none())]), mk(vec![(en(vec![(255, vec![]), (0, vec![])]), none())]), f00(), vec![V::Enum(255, vec![]), V::Enum(0, vec![])]);
+        }
+    }
+    // F. replacing with Any (type kind Any, and a child redirected to the well-known Any), both directions
+    let all_kinds: Vec<SK> = {
+        let mut k: Vec<SK> = vec![TypeKind::Any, TypeKind::Bool];
+        for ik in IKS { k.push(ik_kind(ik)); }
+        k.push(TypeKind::String);
+        for c in [ScryptoCustomTypeKind::Reference, ScryptoCustomTypeKind::Own, ScryptoCustomTypeKind::Decimal, ScryptoCustomTypeKind::PreciseDecimal, ScryptoCustomTypeKind::NonFungibleLocalId] {
+            k.push(TypeKind::Custom(c));
+        }
+        k
+    };
+    let containers: Vec<SK> = vec![
+        TypeKind::Array { element_type: wk(7) }, tuple(vec![wk(1), wk(7)]), tuple(vec![]),
+        TypeKind::Enum { variants: indexmap!(0u8 => vec![], 1u8 => vec![wk(1)]) }, TypeKind::Map { key_type: wk(7), value_type: wk(1) },
+    ];
+    {
+        let mut ks = all_kinds.clone();
+        ks.extend(containers.clone());
+        let mut rng = Rng::new(0xB0DA_23);
+        for k in &ks {
+            let b = mk(vec![(k.clone(), none())]);
+            let mut g = VGen { schema: &b, budget: 10, deviate: 0 };
+            let probe = g.gen(&mut rng, loc(0), 4);
+            for st in [loose(false, false), loose(true, false), EXT] {
+                push("c_any", st, b.clone(), mk(vec![(TypeKind::Any, none())]), f00(), vec![probe.clone()]);
+                push("c_any", st, mk(vec![(TypeKind::Any, none())]), b.clone(), f00(), vec![probe.clone(), V::Bool(true), V::Tuple(vec![])]);
+                // through a parent: Tuple[T] vs Tuple[WK Any] and back
+                let pb = mk(vec![(tuple(vec![loc(1)]), none()), (k.clone(), none())]);
+                let pc = mk(vec![(tuple(vec![wk(ANY)]), none()), (k.clone(), none())]);
+                push("c_any", st, pb.clone(), pc.clone(), f00(), vec![V::Tuple(vec![probe.clone()])]);
+                push("c_any", st, pc, pb, f00(), vec![V::Tuple(vec![probe.clone()]), V::Tuple(vec![V::Str("q".into())])]);
+            }
+        }
+    }
+    // G. kind matrix
+    for b in &all_kinds {
+        for c in &all_kinds {
+            push("c_kind_matrix", loose(false, false), mk(vec![(b.clone(), none())]), mk(vec![(c.clone(), none())]), f00(), vec![]);
+        }
+    }
+    for b in &containers {
+        for c in &containers {
+            push("c_kind_matrix", loose(false, false), mk(vec![(b.clone(), none())]), mk(vec![(c.clone(), none())]), f00(), vec![]);
+        }
+        push("c_kind_matrix", loose(false, false), mk(vec![(b.clone(), none())]), mk(vec![(TypeKind::Bool, none())]), f00(), vec![]);
+        push("c_kind_matrix", loose(false, false), mk(vec![(TypeKind::Bool, none())]), mk(vec![(b.clone(), none())]), f00(), vec![]);
+    }
+    // H. cycles and the (base id, compared id) cache
+    {
+        let list = |b: SV| mk(vec![(TypeKind::Enum { variants: indexmap!(0u8 => vec![], 1u8 => vec![loc(1), loc(0)]) }, none()), (TypeKind::U8, b)]);
+        let lv = |xs: &[u128]| { let mut v = V::Enum(0, vec![]); for x in xs.iter().rev() { v = V::Enum(1, vec![u8v(*x), v]); } v };
+        let lprobes = vec![lv(&[]), lv(&[1]), lv(&[9]), lv(&[5, 9]), lv(&[5, 10]), lv(&[0]), lv(&[5, 5, 0])];
+        for st in [loose(false, false), loose(true, true)] {
+            push("c_cycle", st, list(u8b(1, 9)), list(u8b(1, 9)), f00(), lprobes.clone());
+            push("c_cycle", st, list(u8b(1, 9)), list(u8b(1, 8)), f00(), lprobes.clone());
+            push("c_cycle", st, list(u8b(1, 9)), list(u8b(2, 9)), f00(), lprobes.clone());
+            push("c_cycle", st, list(u8b(1, 9)), list(u8b(0, 10)), f00(), lprobes.clone());
+            // the element type placed AFTER the recursive field (the self pair is met first)
+            let rl = |b: SV| mk(vec![(TypeKind::Enum { variants: indexmap!(0u8 => vec![], 1u8 => vec![loc(0), loc(1)]) }, none()), (TypeKind::U8, b)]);
+            let rv = |xs: &[u128]| { let mut v = V::Enum(0, vec![]); for x in xs.iter().rev() { v = V::Enum(1, vec![v, u8v(*x)]); } v };
+            push("c_cycle", st, rl(u8b(1, 9)), rl(u8b(1, 8)), f00(), vec![rv(&[9]), rv(&[5, 9]), rv(&[])]);
+            push("c_cycle", st, rl(u8b(1, 9)), rl(u8b(1, 9)), f00(), vec![rv(&[9]), rv(&[5, 9]), rv(&[])]);
+            // one base type paired with two compared types (cache key must be the pair)
+            for (c1, c2) in [((1, 9), (2, 9)), ((2, 9), (1, 9)), ((1, 9), (1, 9)), ((0, 9), (1, 10))] {
+                push("c_cache_pair", st,
+                    mk(vec![(tuple(vec![loc(1), loc(1)]), none()), (TypeKind::U8, u8b(1, 9))]),
+                    mk(vec![(tuple(vec![loc(1), loc(2)]), none()), (TypeKind::U8, u8b(c1.0, c1.1)), (TypeKind::U8, u8b(c2.0, c2.1))]),
+                    f00(), vec![V::Tuple(vec![u8v(1), u8v(1)]), V::Tuple(vec![u8v(9), u8v(9)]), V::Tuple(vec![u8v(1), u8v(9)]), V::Tuple(vec![u8v(0), u8v(10)])]);
+            }
+            // two base types paired with one compared type
+            for (b1, b2, c) in [((1, 9), (0, 9), (1, 9)), ((0, 9), (1, 9), (1, 9)), ((1, 9), (0, 9), (0, 9)), ((1, 9), (1, 9), (1, 9))] {
+                push("c_cache_pair", st,
+                    mk(vec![(tuple(vec![loc(1), loc(2)]), none()), (TypeKind::U8, u8b(b1.0, b1.1)), (TypeKind::U8, u8b(b2.0, b2.1))]),
+                    mk(vec![(tuple(vec![loc(1), loc(1)]), none()), (TypeKind::U8, u8b(c.0, c.1))]),
+                    f00(), vec![V::Tuple(vec![u8v(1), u8v(0)]), V::Tuple(vec![u8v(0), u8v(1)]), V::Tuple(vec![u8v(9), u8v(9)])]);
+            }
+            // mutual recursion A = (B), B = Enum {0: [], 1: [A, X]}
+            let mr = |x: SV| mk(vec![(tuple(vec![loc(1)]), none()), (TypeKind::Enum { variants: indexmap!(0u8 => vec![], 1u8 => vec![loc(0), loc(2)]) }, none()), (TypeKind::U8, x)]);
+            let mv = |x: u128| V::Tuple(vec![V::Enum(1, vec![V::Tuple(vec![V::Enum(0, vec![])]), u8v(x)])]);
+            push("c_cycle", st, mr(u8b(1, 9)), mr(u8b(1, 9)), f00(), vec![mv(1), mv(9)]);
+            push("c_cycle", st, mr(u8b(1, 9)), mr(u8b(1, 8)), f00(), vec![mv(1), mv(9)]);
+            // a difference at the end of a chain of nested tuples
+            let chain = |x: SV| { let mut t: Vec<(SK, SV)> = (0..6).map(|i| (tuple(vec![loc(i + 1)]), none())).collect(); t.push((TypeKind::U8, x)); mk(t) };
+            let cv = |x: u128| { let mut v = u8v(x); for _ in 0..6 { v = V::Tuple(vec![v]); } v };
+            push("c_cycle", st, chain(u8b(1, 9)), chain(u8b(1, 8)), f00(), vec![cv(9), cv(1)]);
+            push("c_cycle", st, chain(u8b(1, 9)), chain(u8b(1, 9)), f00(), vec![cv(9), cv(1)]);
+        }
+    }
+    // I. name changes at each metadata level x rule profiles
+    {
+        let nm = |n: Option<&str>, ch: Option<ChildNames>| TypeMetadata { type_name: n.map(|x| x.to_string().into()), child_names: ch };
+        let fields = |f: &[&str]| Some(ChildNames::NamedFields(f.iter().map(|x| x.to_string().into()).collect()));
+        let st_schema = |m: TypeMetadata| { let mut s = mk(vec![(tuple(vec![wk(1)]), none())]); s.type_metadata[0] = m; s };
+        let en_schema = |tn: Option<&str>, vn: Option<&str>, vf: Option<ChildNames>| {
+            let mut s = mk(vec![(TypeKind::Enum { variants: indexmap!(0u8 => vec![wk(1)]) }, none())]);
+            s.type_metadata[0] = nm(tn, Some(ChildNames::EnumVariants(indexmap!(0u8 => nm(vn, vf)))));
+            s
+        };
+        let mut pairs: Vec<(&str, ScryptoSchema, ScryptoSchema)> = vec![];
+        // type name (struct)
+        pairs.push(("type_same", st_schema(nm(Some("S"), fields(&["f"]))), st_schema(nm(Some("S"), fields(&["f"])))));
+        pairs.push(("type_changed", st_schema(nm(Some("S"), fields(&["f"]))), st_schema(nm(Some("S2"), fields(&["f"])))));
+        pairs.push(("type_removed", st_schema(nm(Some("S"), fields(&["f"]))), st_schema(nm(None, fields(&["f"])))));
+        pairs.push(("type_added", st_schema(nm(None, fields(&["f"]))), st_schema(nm(Some("S"), fields(&["f"])))));
+        // field name (struct)
+        pairs.push(("field_changed", st_schema(nm(Some("S"), fields(&["f"]))), st_schema(nm(Some("S"), fields(&["g"])))));
+        pairs.push(("field_removed", st_schema(nm(Some("S"), fields(&["f"]))), st_schema(nm(Some("S"), None))));
+        pairs.push(("field_added", st_schema(nm(Some("S"), None)), st_schema(nm(Some("S"), fields(&["f"])))));
+        // enum: type name, variant name, variant field name
+        pairs.push(("enum_same", en_schema(Some("E"), Some("V"), fields(&["g"])), en_schema(Some("E"), Some("V"), fields(&["g"]))));
+        pairs.push(("enum_type_changed", en_schema(Some("E"), Some("V"), fields(&["g"])), en_schema(Some("E2"), Some("V"), fields(&["g"]))));
+        pairs.push(("variant_changed", en_schema(Some("E"), Some("V"), fields(&["g"])), en_schema(Some("E"), Some("V2"), fields(&["g"]))));
+        pairs.push(("variant_removed", en_schema(Some("E"), Some("V"), fields(&["g"])), en_schema(Some("E"), None, fields(&["g"]))));
+        pairs.push(("variant_added", en_schema(Some("E"), None, fields(&["g"])), en_schema(Some("E"), Some("V"), fields(&["g"]))));
+        pairs.push(("variant_field_changed", en_schema(Some("E"), Some("V"), fields(&["g"])), en_schema(Some("E"), Some("V"), fields(&["h"]))));
+        pairs.push(("variant_field_removed", en_schema(Some("E"), Some("V"), fields(&["g"])), en_schema(Some("E"), Some("V"), None)));
+        pairs.push(("variant_field_added", en_schema(Some("E"), Some("V"), None), en_schema(Some("E"), Some("V"), fields(&["g"]))));
+        let profiles: [(u8, u8, u8); 9] = [(2, 0, 0), (0, 2, 0), (0, 0, 2), (0, 2, 2), (2, 0, 2), (2, 2, 0), (1, 1, 1), (0, 0, 0), (2, 2, 2)];
+        for (_, b, c) in &pairs {
+            for (t, f, v) in profiles {
+                let st = St { unreach_base: true, unreach_cmp: true, more_roots: true, extension_structure: false, type_names: t, field_names: f, variant_names: v, weakening: false };
+                push("c_names", st, b.clone(), c.clone(), f00(), vec![V::Tuple(vec![V::Bool(true)]), V::Enum(0, vec![V::Bool(false)])]);
+            }
+        }
+    }
+    // J. completeness and named roots
+    {
+        let two = || mk(vec![(tuple(vec![wk(1)]), none()), (TypeKind::U8, none())]); // type 1 unreachable from root 0
+        let one = || mk(vec![(tuple(vec![wk(1)]), none())]);
+        for ub in [false, true] {
+            for uc in [false, true] {
+                let st = St { unreach_base: ub, unreach_cmp: uc, more_roots: false, extension_structure: false, type_names: 0, field_names: 0, variant_names: 0, weakening: false };
+                push("c_completeness", st, two(), one(), f00(), vec![]);
+                push("c_completeness", st, one(), two(), f00(), vec![]);
+                push("c_completeness", st, two(), two(), f00(), vec![]);
+                push("c_completeness", st, one(), one(), f00(), vec![]);
+                // reachable through the second named root only
+                let nr = |names: &[(&str, usize)]| -> IndexMap<String, LocalTypeId> { names.iter().map(|(n, i)| (n.to_string(), loc(*i))).collect() };
+                push("c_completeness", st, two(), two(), Roots::Named(nr(&[("A", 0), ("B", 1)]), nr(&[("A", 0), ("B", 1)])), vec![]);
+                push("c_completeness", st, two(), two(), Roots::Named(nr(&[("A", 0)]), nr(&[("A", 0)])), vec![]);
+            }
+        }
+        let nr = |names: &[(&str, usize)]| -> IndexMap<String, LocalTypeId> { names.iter().map(|(n, i)| (n.to_string(), loc(*i))).collect() };
+        for more in [false, true] {
+            let st = St { unreach_base: true, unreach_cmp: true, more_roots: more, extension_structure: false, type_names: 0, field_names: 0, variant_names: 0, weakening: false };
+            push("c_named_roots", st, two(), two(), Roots::Named(nr(&[("A", 0), ("B", 1)]), nr(&[("A", 0)])), vec![]);          // root missing in compared
+            push("c_named_roots", st, two(), two(), Roots::Named(nr(&[("A", 0)]), nr(&[("A", 0), ("B", 1)])), vec![]);          // extra root in compared
+            push("c_named_roots", st, two(), two(), Roots::Named(nr(&[("A", 0), ("B", 1)]), nr(&[("B", 1), ("A", 0)])), vec![]); // order swapped
+            push("c_named_roots", st, two(), two(), Roots::Named(nr(&[("A", 0), ("B", 1)]), nr(&[("A", 1), ("B", 0)])), vec![]); // roots crossed
+            push("c_named_roots", st, two(), two(), Roots::Named(nr(&[]), nr(&[])), vec![]);
+            push("c_named_roots", st, two(), two(), Roots::Named(nr(&[]), nr(&[("A", 0)])), vec![]);
+            push("c_named_roots", st, two(), two(), Roots::Named(nr(&[("A", 0), ("B", 0)]), nr(&[("A", 0), ("B", 0)])), vec![]);
+        }
+    }
+    // K. well-known roots and the equal-well-known short-circuit
+    {
+        let e = || mk(vec![]);
+        let rprobes: Vec<V> = ents.iter().map(|x| V::Custom(C::SReference(node(*x)))).collect();
+        for st in [loose(false, false), loose(false, true), EQ] {
+            for w in [1u8, 7, 12, ANY, 0x41, 0x42, 129, 131] {
+                push("c_wellknown", st, e(), e(), Roots::Fixed(wk(w), wk(w)), rprobes.clone());
+            }
+            push("c_wellknown", st, e(), e(), Roots::Fixed(wk(7), wk(8)), vec![]);
+            push("c_wellknown", st, e(), e(), Roots::Fixed(wk(131), wk(129)), rprobes.clone()); // PackageAddress -> GlobalAddress: weakened
+            push("c_wellknown", st, e(), e(), Roots::Fixed(wk(129), wk(131)), rprobes.clone()); // strengthened
+            push("c_wellknown", st, e(), mk(vec![(TypeKind::Array { element_type: wk(7) }, none())]), Roots::Fixed(wk(0x41), loc(0)), vec![V::Array(K::Int(IK::U8), vec![u8v(1)])]);
+            push("c_wellknown", st, mk(vec![(TypeKind::Array { element_type: wk(7) }, none())]), e(), Roots::Fixed(loc(0), wk(0x41)), vec![V::Array(K::Int(IK::U8), vec![u8v(1)])]);
+            push("c_wellknown", st, mk(vec![(tuple(vec![wk(7)]), none())]), mk(vec![(tuple(vec![wk(8)]), none())]), f00(), vec![]);
+        }
+    }
+    // L. ill-formed schemas: the kernel's panics
+    {
+        let bad = || mk(vec![(tuple(vec![loc(3)]), none())]);
+        let good = || mk(vec![(tuple(vec![wk(1)]), none())]);
+        push("c_panic", loose(false, false), bad(), good(), f00(), vec![]);
+        push("c_panic", loose(false, false), good(), bad(), f00(), vec![]);
+        push("c_panic", loose(false, false), good(), good(), Roots::Fixed(loc(2), loc(0)), vec![]);
+        push("c_panic", loose(false, false), good(), good(), Roots::Fixed(loc(0), loc(2)), vec![]);
+        push("c_panic", EQ, bad(), bad(), f00(), vec![]);
+        let mut short = good();
+        short.type_validations.pop();
+        push("c_panic", loose(false, false), short.clone(), good(), f00(), vec![]);
+        push("c_panic", loose(false, false), good(), short, f00(), vec![]);
+        // enum kind without variant metadata on the base / on the compared side (the two `expect`s of
+        // compare_type_metadata_internal)
+        let en = || mk(vec![(TypeKind::Enum { variants: indexmap!(0u8 => vec![]) }, none())]);
+        let mut en_bad = en();
+        en_bad.type_metadata[0] = TypeMetadata::unnamed();
+        push("c_panic", EQ, en_bad.clone(), en(), f00(), vec![]);
+        push("c_panic", EQ, en(), en_bad.clone(), f00(), vec![]);
+        push("c_panic", loose(false, false), en_bad.clone(), en(), f00(), vec![]); // name checks off: no panic
+        // reachability marking of a dangling root that is never compared (named roots)
+        let nr = |names: &[(&str, usize)]| -> IndexMap<String, LocalTypeId> { names.iter().map(|(n, i)| (n.to_string(), loc(*i))).collect() };
+        push("c_panic", loose(false, false), good(), good(), Roots::Named(nr(&[("A", 5)]), nr(&[])), vec![]);
+        push("c_panic", loose(false, false), good(), good(), Roots::Named(nr(&[]), nr(&[("A", 5)])), vec![]);
+        push("c_panic", loose(false, false), bad(), good(), Roots::Named(nr(&[("A", 0)]), nr(&[])), vec![]);
+    }
+    out
+}
+
 fn main() {
     let args = Args::parse();
     let mut report = Report::new("C23", args.seed, "distinct (settings, base, compared, roots) with verdict");
@@ -415,6 +915,33 @@ fn main() {
         "RV.Model.C20_Sbor RV.Model.C22_Types RV.Model.C22_Schema RV.Model.C23_SchemaCmp RV.Corr.C23_run",
         "check",
     );
+    // ---------------- deterministic boundary family ----------------
+    {
+        let mut brng = Rng::new(0xB0DA_2300);
+        let pairs = boundary_pairs();
+        report.extra.insert("boundary_cases".into(), json!(pairs.len()));
+        for (i, p) in pairs.into_iter().enumerate() {
+            let label = run_pair(&mut report, &mut cw, &mut brng, 1_000_000 + i, p.st, &p.base, &p.cmp, &p.roots, &p.extra);
+            report.count(&p.class);
+            report.count(&format!("{}_{}", p.class, label));
+        }
+        for ik in IKS {
+            report.floor(&format!("c_num_{:?}", ik), 36);
+            report.floor(&format!("c_num_{:?}_valid", ik), 8);
+            report.floor(&format!("c_num_{:?}_invalid", ik), 16);
+        }
+        for (c, n, v, inv) in [("c_len_string", 30, 6, 12), ("c_len_array", 30, 6, 12), ("c_len_map", 30, 6, 12), ("c_custom_ref", 150, 20, 80),
+            ("c_custom_own", 100, 14, 60), ("c_tuple_arity", 14, 6, 8), ("c_enum", 55, 8, 30), ("c_any", 260, 60, 100), ("c_kind_matrix", 340, 18, 300),
+            ("c_cycle", 18, 8, 8), ("c_cache_pair", 16, 4, 8), ("c_names", 130, 40, 40), ("c_completeness", 24, 8, 8), ("c_named_roots", 14, 4, 4),
+            ("c_wellknown", 36, 12, 6)] {
+            report.floor(c, n);
+            report.floor(&format!("{}_valid", c), v);
+            report.floor(&format!("{}_invalid", c), inv);
+        }
+        report.floor("c_panic_panic", 10);
+        report.floor("oracle_explicit_payloads", 1000);
+    }
+    // ---------------- random stream ----------------
     let base_rng = Rng::new(args.seed);
     for i in 0..args.cases {
         let mut rng = base_rng.fork(i as u64);
@@ -449,53 +976,14 @@ fn main() {
         }
         for l in &labels { report.count(&format!("mutation_{}", l)); }
         if labels.is_empty() { report.count("mutation_identity"); }
-        let base_valid = base.validate().is_ok();
-        let cmp_valid = cmp.validate().is_ok();
-        if base_valid && cmp_valid { report.count("both_schemas_valid"); }
-
-        let named = rng.chance(1, 3);
-        let settings = st.real();
-        if !named {
+        let roots = if !rng.chance(1, 3) {
             let a = if rng.chance(1, 12) { wk(*rng.pick(&well_known_ids())) } else { LocalTypeId::SchemaLocalIndex(rng.usize_below(n_types)) };
             let b = match a {
                 LocalTypeId::SchemaLocalIndex(x) if !rng.chance(1, 15) => LocalTypeId::SchemaLocalIndex(perm[x]),
                 LocalTypeId::SchemaLocalIndex(_) => LocalTypeId::SchemaLocalIndex(rng.usize_below(cmp.type_kinds.len())),
                 w => w,
             };
-            let bs = SingleTypeSchema::<ScryptoCustomSchema>::new(VersionedSchema::from(base.clone()), a);
-            let cs = SingleTypeSchema::<ScryptoCustomSchema>::new(VersionedSchema::from(cmp.clone()), b);
-            let r = catch({
-                let (bs, cs) = (bs.clone(), cs.clone());
-                move || {
-                    let res = compare_single_type_schemas(&settings, &bs, &cs);
-                    (res.is_valid(), res.error_message("base", "compared"))
-                }
-            });
-            let (verdict, nerr, valid) = match &r {
-                Ok((v, m)) => (format!("(Some {})", coq_bool(*v)), if *v { Some(0) } else { parse_count(m) }, *v),
-                Err(_) => {
-                    // is_valid alone (error_message may be what panicked)
-                    let r2 = catch({
-                        let (bs, cs) = (bs.clone(), cs.clone());
-                        move || compare_single_type_schemas(&settings, &bs, &cs).is_valid()
-                    });
-                    match r2 {
-                        Ok(v) => (format!("(Some {})", coq_bool(v)), None, v),
-                        Err(_) => ("None".to_string(), None, false),
-                    }
-                }
-            };
-            report.count(if verdict == "None" { "verdict_panic" } else if valid { "verdict_valid" } else { "verdict_invalid" });
-            if verdict == "None" && base_valid && cmp_valid { report.count("panic_on_valid_schemas"); }
-            if valid {
-                payload_oracle(&mut rng, &mut report, i, &base, &cmp, a, b, st.equality_like(), &format!("{:?}", st));
-            }
-            report.case(&format!("F{:?}{:?}{:?}{:?}{:?}{}", st, base, cmp, a, b, verdict), true);
-            cw.push(format!(
-                "(CFixed {} {} {} {} {} {} {})",
-                st.coq(), coq_schema(&base), coq_schema(&cmp), coq_tid(&a), coq_tid(&b), verdict,
-                coq_option(nerr.map(|x| format!("{}", x)))
-            ));
+            Roots::Fixed(a, b)
         } else {
             let k = rng.range(1, 3) as usize;
             let mut broots: IndexMap<String, LocalTypeId> = IndexMap::new();
@@ -511,48 +999,13 @@ fn main() {
             if rng.chance(1, 4) {
                 croots.insert("Extra".to_string(), LocalTypeId::SchemaLocalIndex(rng.usize_below(cmp.type_kinds.len())));
             }
-            let bs = TypeCollectionSchema::<ScryptoCustomSchema>::new(VersionedSchema::from(base.clone()), broots.clone());
-            let cs = TypeCollectionSchema::<ScryptoCustomSchema>::new(VersionedSchema::from(cmp.clone()), croots.clone());
-            let r = catch({
-                let (bs, cs) = (bs.clone(), cs.clone());
-                move || {
-                    let res = compare_type_collection_schemas(&settings, &bs, &cs);
-                    (res.is_valid(), res.error_message("base", "compared"))
-                }
-            });
-            let (verdict, nerr, valid) = match &r {
-                Ok((v, m)) => (format!("(Some {})", coq_bool(*v)), if *v { Some(0) } else { parse_count(m) }, *v),
-                Err(_) => {
-                    let r2 = catch({
-                        let (bs, cs) = (bs.clone(), cs.clone());
-                        move || compare_type_collection_schemas(&settings, &bs, &cs).is_valid()
-                    });
-                    match r2 {
-                        Ok(v) => (format!("(Some {})", coq_bool(v)), None, v),
-                        Err(_) => ("None".to_string(), None, false),
-                    }
-                }
-            };
-            report.count(if verdict == "None" { "verdict_panic" } else if valid { "verdict_valid" } else { "verdict_invalid" });
-            if verdict == "None" && base_valid && cmp_valid { report.count("panic_on_valid_schemas"); }
-            report.count("named_roots_cases");
-            if valid {
-                for (name, a) in broots.iter() {
-                    if let Some(b) = croots.get(name) {
-                        payload_oracle(&mut rng, &mut report, i, &base, &cmp, *a, *b, st.equality_like(), &format!("{:?}", st));
-                    }
-                }
-            }
-            report.case(&format!("N{:?}{:?}{:?}{:?}{:?}{}", st, base, cmp, broots, croots, verdict), true);
-            cw.push(format!(
-                "(CNamed {} {} {} {} {} {} {})",
-                st.coq(), coq_schema(&base), coq_schema(&cmp), coq_roots(&broots), coq_roots(&croots), verdict,
-                coq_option(nerr.map(|x| format!("{}", x)))
-            ));
-        }
+            Roots::Named(broots, croots)
+        };
+        let label = run_pair(&mut report, &mut cw, &mut rng, i, st, &base, &cmp, &roots, &[]);
+        report.count(&format!("random_verdict_{}", label));
     }
-    report.floor("verdict_valid", (args.cases / 20) as u64);
-    report.floor("verdict_invalid", (args.cases / 10) as u64);
+    report.floor("random_verdict_valid", (args.cases / 20) as u64);
+    report.floor("random_verdict_invalid", (args.cases / 10) as u64);
     report.floor("oracle_payload_valid_under_base", (args.cases / 20) as u64);
     report.write(&args.out).expect("write report");
     if !args.oracle_only {
